@@ -35,6 +35,7 @@ STYLES = [None,
 ALPHA20 = (0x00, 0x09, 0x0A, 0x20, 0x22, 0x24, 0x28, 0x29, 0x2E, 0x3B, 0x40, 0x5C, 0x30, 0x39, 0x41, 0x61, 0x7E, 0x7F, 0x80, 0xFF)
 META = {"OPT", "TSIG", "TKEY"}
 EXAMPLE = dns.name.Name(R.ORIGIN)
+SUB_EXAMPLE = dns.name.Name((b"sub",) + tuple(R.ORIGIN))
 
 
 def crash_sig(e):
@@ -191,6 +192,22 @@ def judge_generic(spec, rdclass, wire, probs):
                     wire.hex(), rr.to_generic(EXAMPLE).to_wire().hex())))
         except Exception as e:
             probs.append(("%s/to_generic/relative-with-origin/crash/%s" % (T, crash_sig(e)), "%s: %s" % (type(e).__name__, e)))
+        # the generic form read under every origin / relativize / relativize_to choice gives what
+        # the ordinary text gives under the same choice (a zone reader passes the current $ORIGIN as
+        # origin and the zone origin as relativize_to)
+        try:
+            plain = r.to_text()
+            for o_, rel_, to_ in ((EXAMPLE, True, None), (SUB_EXAMPLE, True, EXAMPLE), (EXAMPLE, True, SUB_EXAMPLE),
+                                  (SUB_EXAMPLE, False, EXAMPLE), (None, True, EXAMPLE)):
+                a_ = dns.rdata.from_text(rdclass, spec.rdtype, plain, o_, rel_, to_)
+                b_ = dns.rdata.from_text(rdclass, spec.rdtype, gt, o_, rel_, to_)
+                if not (a_ == b_) or a_.to_text() != b_.to_text():
+                    probs.append((T + "/generic-as-known/differs-from-plain-text-under-origin-choice",
+                                  "origin=%s relativize=%s relativize_to=%s: plain text gives %s, generic text gives %s" % (
+                                      o_, rel_, to_, a_.to_text(), b_.to_text())))
+                    break
+        except Exception as e:
+            probs.append(("%s/generic-as-known/origin-choice-crash/%s" % (T, crash_sig(e)), "%s: %s" % (type(e).__name__, e)))
         try:
             g0 = rr.to_generic()
             if g0.to_wire() != wire:
